@@ -66,6 +66,18 @@ CLAIMED = {
          'shapes; every branch writes the same variables; trip counts >= 1. named_call, static/donate argnums, custom map_variables functions not covered. No axioms.',
     technique='Coq proof (filter-partition lemmas over lift.pack) + per-run model-vs-implementation correspondence by vm_compute + lifted-vs-plain oracle on the real code',
     ref='DESIGN.md section 5, C05'),
+  'C06': dict(
+    text='PARTIAL. The loop model of C08 (Model/NnxLift.v) extended with nn.scan\'s broadcast pre-pass (Model/LinenLoop.v). Proved for every body, role assignment, length, direction, carry and '
+         'inputs: for a body that leaves broadcast collections alone the lifted scan is the unrolled Python loop over sliced variables (unroll does not occur); a write to a broadcast collection '
+         'is accepted only when its value cannot depend on the iteration, input or carry (non-interference), otherwise rejected; under vmap what is left in a None-axis collection is identical at '
+         'every index. Tied to /repo per run: a Linen module interpreting integer bodies over variables in the collections ax0 / ax1 / bc / carry under nn.scan and nn.vmap (non-square shapes, '
+         'lengths 1-4, reverse, unroll, split_rngs), apply on stacked variables and init; final carry, stacked outputs and collections compared in Coq and with the Python loop / per-index '
+         'calls on the real code; key equality pattern per split_rngs.',
+    note='Trusted: Coq kernel, vm_compute, harness, jaxcompat, lax.scan / jax.vmap. Axis collections are slices in the model: transpose_to_front / moveaxis tied by the correspondence only. '
+         'Known finding F25: a loop-invariant write to a broadcast collection inside nn.scan is applied once (refuted inside the model). in_axes/out_axes prefix trees over containers, remat_scan, '
+         'negative axes (C19/F4) not generated. No axioms.',
+    technique='Coq proof (loop/scan simulation, non-interference of the taint analysis) + per-run correspondence by vm_compute + loop oracle on the real code',
+    ref='DESIGN.md section 5, C06'),
   'C08': dict(
     text='PARTIAL. A Gallina model of the state bookkeeping of nnx.vmap / nnx.scan / nnx.grad at the level of the argument\'s Variables: StateAxes.map_prefix (first matching filter), per-index '
          'views of axis groups, shared None groups with jax.vmap\'s batchedness tracked by dependency, scan with per-step slices, threaded Carry state and broadcast state re-read from the '
